@@ -39,7 +39,7 @@ def trunc(d,p):
     if p=='m': return d.replace(second=0,microsecond=0)
     if p=='h': return d.replace(minute=0,second=0,microsecond=0)
     return d.replace(hour=0,minute=0,second=0,microsecond=0)
-OFFS=[None,'Z',' UTC','+00:00','-0300','+05:30','-23:59','+23:59',' +0100','-03']
+OFFS=[None,'Z',' UTC','+00:00','-0300','+05:30','-23:59','+23:59',' +0100','-03',' Z',' -0330']
 bad=collections.Counter(); ex={}; n=0
 for it in range(60000):
     y=rnd.choice([1,31,32,99,100,999,1000,1969,1999,2000,2024,2069,9999, rnd.randint(1,9999)])
@@ -49,7 +49,9 @@ for it in range(60000):
     if p=='d2':
         if not (1976<=y<=2075): continue
     s=f(d); off=rnd.choice(OFFS) if p not in('d','d2') else None
-    if off: s+=off
+    if off:
+        if name in ('ctime','long','ampm_short','ampm_hour','hms_letters') and not off.startswith(' '): off=' '+off
+        s+=off
     default=datetime(2001,1,1)
     try: got=parse(s,default=default,**kw)
     except Exception as e:
